@@ -243,6 +243,24 @@ def _token_predicates(ctx, fi: FuncInfo):
     return out
 
 
+def pred_accepts(pred: ast.expr, var: str, tok: str, env0: dict | None = None) -> bool:
+    """can the predicate hold for this token?  Free names other than the token variable (flags such as
+    `isotope_mass`) range over a falsy and a truthy value; the predicate accepts if some choice makes it true."""
+    import itertools
+    env0 = dict(env0 or {})
+    free = sorted(names_in(pred) - {var} - set(env0))
+    for choice in itertools.product((0, 1), repeat=len(free)):
+        env = {**env0, var: tok, **dict(zip(free, choice))}
+        try:
+            if ceval(pred, env):
+                return True
+        except Unsupported:
+            raise
+        except Exception:
+            continue        # the predicate raised on this token (e.g. no '='): not accepted
+    return False
+
+
 @rule("R-KWEXACT")
 def r_kwexact(ctx) -> RuleResult:
     res = RuleResult("R-KWEXACT", "each optional-attribute recognizer of the V3000 atom decoder accepts exactly its own keyword among the CTfile atom keywords")
@@ -265,12 +283,7 @@ def r_kwexact(ctx) -> RuleResult:
                 env0[nm] = v
 
         def accepts(tok: str) -> bool:
-            try:
-                return bool(ceval(pred, {**env0, var: tok}))
-            except Unsupported:
-                raise
-            except Exception:
-                return False     # the predicate raised on this token (e.g. no '='): not accepted
+            return pred_accepts(pred, var, tok, env0)
         try:
             own = [kw for kw in ("CHG", "MASS", "RAD") if all(accepts(t) for t in spec_tokens[kw][:2])]
         except Unsupported as e:
@@ -627,6 +640,10 @@ def r_supersede(ctx) -> RuleResult:
     for x in own_walk(fn):
         if isinstance(x, ast.Call):
             ks = kills_of(x)
+            if not ks and isinstance(x.func, ast.Attribute) and x.func.attr == "pop" and x.args:
+                k = try_const(ctx, pf, x.args[0])       # removal written inline
+                if k is not None:
+                    ks = {k}
             if ks:
                 kill_nodes[id(x)] = (x, ks)
     # merge call: callee that updates atom records from the collected entries (|= / update on items of param 0)
